@@ -611,6 +611,15 @@ func c07Cases() []c07Case {
 			}
 		}
 	}
+	// very large pages: 1500 matching rows fetched with page sizes around 1000 and 1500 and far above (statement
+	// and message-size limits one might put into the listing path sit at such round numbers)
+	for _, s := range []int{999, 1000, 1001, 1499, 1500, 1501, 2000, 100000} {
+		for _, sh := range []sv{{0, false}, {1, false}} {
+			for _, tr := range trs {
+				out = append(out, c07Case{Family: "large", Transport: tr, S: s, M: 1500, Shape: sh.shape, SubSet: sh.set})
+			}
+		}
+	}
 	// dynamic: all op sequences of length 3 (iterations of up to 4 pages; later boundaries: none)
 	// (rows must be pairwise distinct here, so object or subject has to be free)
 	dynShapes := []sv{{0, false}, {5, false}, {7, false}, {8, false}, {8, true}, {1, false}, {13, true}, {2, false}}
